@@ -20,6 +20,7 @@ def human_counters(out):
 
 
 def run(tier, seed):
+    bytes_name_failures = 0
     res = vlib.Result(PID, tier, seed)
     pr = proof_phase(res, PID)
     okm, outm = vlib.build_model()
@@ -224,12 +225,34 @@ def run(tier, seed):
                 kinds[t] = kinds.get(t, 0) + 1
         if kinds.get("create", 0) != 2 or kinds.get("update", 0) != 1:
             viol.append({"world": "bytes-names", "why": "3 entries changed (2 created, 1 updated; two names are not valid UTF-8) but the stream has %r" % kinds})
+        # ... and so must its failures be: a file whose destination path is a non-empty directory, a directory whose destination path
+        # is a file, both with names that are not valid UTF-8, and a stale destination-only file of that kind under --delete
+        b2 = os.path.join(sc.dir, "bytes2").encode()
+        os.makedirs(b2 + b"/src/dd_\xf3"); os.makedirs(b2 + b"/dst/bad_\xf2")
+        for nm, data in ((b"src/bad_\xf2", b"file in the source"), (b"src/dd_\xf3/in", b"x"), (b"src/fine", b"y"), (b"dst/bad_\xf2/keep", b"k"), (b"dst/dd_\xf3", b"file in the destination"),
+                         (b"dst/stale_\xf4", b"s")):
+            with open(b2 + b"/" + nm, "wb") as fh:
+                fh.write(data)
+        for dele in (False, True):
+            pr2 = subprocess.run([world.SY.encode(), b2 + b"/src", b2 + b"/dst", b"--json", b"-j1"] + ([b"--delete", b"--force-delete"] if dele else []), env=env, stdout=subprocess.PIPE, stderr=subprocess.PIPE)
+            evs2 = [json.loads(l) for l in pr2.stdout.decode("utf-8", "replace").split("\n") if l.startswith("{")]
+            errs2 = [e for e in evs2 if e.get("type") == "error"]
+            paths2 = " ".join(str(e.get("path")) for e in errs2)
+            summ2 = [e for e in evs2 if e.get("type") == "summary"]
+            bytes_name_failures += 1
+            if pr2.returncode == 0 or "bad_" not in paths2 or "dd_" not in paths2:
+                viol.append({"world": "bytes-names-failures", "delete": dele, "why": "two entries whose names are not valid UTF-8 cannot be written (kind conflicts): exit status %s, "
+                             "error events for %r, stderr %r" % (pr2.returncode, paths2, pr2.stderr.decode("utf-8", "replace")[-300:])})
+            if dele and (os.path.exists(b2 + b"/dst/stale_\xf4") or not any(e.get("type") == "delete" and "stale_" in str(e.get("path")) for e in evs2)):
+                viol.append({"world": "bytes-names-failures", "delete": dele, "why": "the stale destination file with a non-UTF-8 name: removed=%s, delete event present=%s"
+                             % (not os.path.exists(b2 + b"/dst/stale_\xf4"), any(e.get("type") == "delete" and "stale_" in str(e.get("path")) for e in evs2))})
     model = [ew.model_obs(m) for m in vlib.run_model(cases)]
     for case, o, m in zip(cases, obs_l, model):
         if o != m and ew.norm_events(o) != ew.norm_events(m):          # with several workers the events come in completion order
             diffs.append({"case": case, "impl": o, "model": m})
     diffs += link_diffs
     res.cov["link_event_cases"] = 72
+    res.cov["non_utf8_name_failure_runs"] = bytes_name_failures
     res.cov["evaluations"] = len(cases) * 2 + 72
     res.cov["distinct_nontrivial"] = len(nontriv)
     res.cov["model_impl_disagreements"] = len(diffs)
